@@ -43,11 +43,16 @@ function buildOriginalMap (code, shape) {
     if (shape.density === 'sparse') return t.line % 2 === 1 && toks.findIndex((q) => q.line === t.line) === i
     if (shape.density === 'first_line_empty') return t.line > 0
     if (shape.density === 'with_sourceless') return true
+    if (shape.density === 'last_line_only') return t.line === toks[toks.length - 1].line
+    if (shape.density === 'beyond') return i === 0
     return true
   }
+  const nlines = code.split('\n').length
   toks.forEach((t, i) => {
     if (!keep(t, i)) return
     const seg = { gl: t.line, gc: t.col, src: (t.line + i) % nsrc, ol: t.line * 2 + 3, oc: t.col + 5 }
+    // a stale map whose only mapping lies after every position of the file: nothing resolves in it
+    if (shape.density === 'beyond') seg.gl = nlines + 4
     if (shape.density === 'with_sourceless' && i % 5 === 4) { segs.push({ gl: t.line, gc: t.col }); return }
     if (shape.names && /^[A-Za-z_$]/.test(t.text)) { let ni = names.indexOf('orig_' + t.text); if (ni < 0) { ni = names.length; names.push('orig_' + t.text) } seg.name = ni }
     segs.push(seg)
@@ -61,6 +66,9 @@ MAP_SHAPES.push({ density: 'one_per_line', sources: 1, names: false, sourceRoot:
 MAP_SHAPES.push({ density: 'every_token', sources: 1, names: false, sourceRoot: '' })
 MAP_SHAPES.push({ density: 'every_token', sources: 1, names: false, sourceRoot: '/abs/root' })
 MAP_SHAPES.push({ density: 'sparse', sources: 2, names: true, sourcesContent: true })
+MAP_SHAPES.push({ density: 'last_line_only', sources: 1, names: false })
+MAP_SHAPES.push({ density: 'beyond', sources: 1, names: false })
+MAP_SHAPES.push({ density: 'beyond', sources: 1, names: true, sourceRoot: 'webpack://app/' })
 
 // ---- reference kinds ---------------------------------------------------------------------------------------
 // each: url (text after `# sourceMappingURL=`), how it is written, what the reader answers, whether M is usable
@@ -238,7 +246,7 @@ module.exports = {
   build,
   requests,
   check,
-  rule: 'leaf = program x reference kind (17: inline / relative / ./ / ../ / absolute / missing / directory / denied / empty / malformed / not-a-map / index map / bad base64 / none / block form / two comments) x original-map shape (25: density, 1-3 sources, names, sourceRoot, sourcesContent, source-less segments) x chain x comments x look-alike text, k deviations among program/shape/look-alike; each leaf = three real calls (as configured, chaining off, without the reference comment); non-trivial = modified; distinct by (input text, chain, comments)',
+  rule: 'leaf = program x reference kind (17: inline / relative / ./ / ../ / absolute / missing / directory / denied / empty / malformed / not-a-map / index map / bad base64 / none / block form / two comments) x original-map shape (28: density, 1-3 sources, names, sourceRoot, sourcesContent, source-less segments, last line only, nothing resolves) x chain x comments x look-alike text, k deviations among program/shape/look-alike; each leaf = three real calls (as configured, chaining off, without the reference comment); non-trivial = modified; distinct by (input text, chain, comments)',
   explanation: 'explicit enumeration of reference kinds, reader answers and map shapes; oracle = independent two-step composition (rewrite map from the chaining-off call, generator-built original map, global greatest-lower-bound, sourceRoot resolution) compared entry by entry with the decoded trailer; fallback must equal the plain rewrite map; content minus trailer must be byte-identical (up to an emptied comment remnant) to the content of the same program without the reference',
   assumptions: ['original maps are synthetic (any valid map must compose)', 'an emptied `//` or `/**/` remnant of the removed comment is tolerated', 'a sourceMappingURL comment that is followed by more code is not judged (only the end-of-file comment is the superseded one)']
 }
